@@ -333,3 +333,38 @@ func VerifC05_TwoConnectionsPerKeyOrder() {
 	}
 	sym.Reach("done")
 }
+
+// VerifC06_ArbitraryByteKeyValues: key values of 1 (thorough: 1..2) arbitrary bytes (invalid
+// UTF-8 included - header tokens are not validated): two records whose values
+// differ get different pipelines with different queue ids and different tags,
+// each built from the record's own bytes (only the metric labels are sanitised).
+//
+//verif:reach two-pipelines one-pipeline
+//verif:paths 100000
+func VerifC06_ArbitraryByteKeyValues() {
+	n := 1 + sym.Choice("len", 1+sym.Tier())
+	a := sym.String("app1", n, n)
+	b := sym.String("app2", n, n)
+	for i := 0; i < n; i++ {
+		sym.Assume(a[i] != ',' && b[i] != ',') // values containing ',' are known finding C06-F1
+	}
+	st := &verifStarter{}
+	o := NewOrchestrator(logger.Root(), verifSchema, []string{"app", "level"}, "t.$app", fakes.NewMetrics(), st.start, nil)
+	sink := o.NewSink("client", 7)
+	sink.Accept([]*base.LogRecord{verifSchema.NewTestRecord1(base.LogFields{a, "x", "m1"})})
+	sink.Accept([]*base.LogRecord{verifSchema.NewTestRecord1(base.LogFields{b, "x", "m2"})})
+	sink.Close()
+	if a == b {
+		sym.Assert(len(st.pipes) == 1, "equal tuples share a pipeline")
+		sym.Reach("one-pipeline")
+		return
+	}
+	sym.Assert(len(st.pipes) == 2, "different tuples get different pipelines")
+	if len(st.pipes) == 2 {
+		sym.Assert(st.pipes[0].id != st.pipes[1].id, "queue ids of tuples that differ in any byte differ")
+		sym.Assert(st.pipes[0].tag != st.pipes[1].tag, "tags of tuples that differ in a key used by the template differ")
+		sym.Assert(st.pipes[0].id == a+",x" && st.pipes[1].id == b+",x", "the queue id is built from the record's own bytes")
+		sym.Assert(st.pipes[0].tag == "t."+a && st.pipes[1].tag == "t."+b, "the tag is built from the record's own bytes")
+	}
+	sym.Reach("two-pipelines")
+}
